@@ -24,7 +24,8 @@ func Harness_C01_visit_main() {
 	args := [][]int{c01Subset("args0", []int{0, 1}), c01Subset("args1", []int{0, 1})}
 	rets := [][]int{c01Subset("rets0", []int{0}), c01Subset("rets1", []int{0})}
 	k := verifPick("sink-operand", 0, 2)
-	w := df.VerifNewTaintWorld(args, rets, k)
+	twice := verifPick("same-value-passed-twice", 0, 1) == 1
+	w := df.VerifNewTaintWorld(args, rets, k, twice)
 	verifAssert("summary-built", w.Err == nil && w.Source != nil && w.Sink != nil && w.G != nil)
 	if w.Err != nil || w.Source == nil || w.Sink == nil || w.G == nil {
 		return
@@ -48,7 +49,8 @@ func Harness_C01_visit_main() {
 			}
 		}
 	}
-	listed := len(rets[0]) > 0
+	// with g(t0, t0) the source's value is also argument 1
+	listed := len(rets[0]) > 0 || (twice && len(rets[1]) > 0)
 	switch k {
 	case 0:
 		verifAssert("direct-source-to-sink-flow-reported", reported)
